@@ -619,7 +619,9 @@ func runC16(p *core.Program, r *core.Report) {
 	// CLONE-FRESH: staticNs.clone returns storage that shares nothing with its receiver
 	clone := p.Method(pkgEval, "staticNs", "clone")
 	if r.Anchor("COMPILE-PURE", "(*eval.staticNs).clone", clone != nil) {
-		fe := &freshEngine{p: p, freshFn: map[*ssa.Function]bool{}}
+		// (with the fresh-return fixpoint of pkg/eval, so that a copying
+		// helper such as cloneInfos counts)
+		fe := newFreshEngine(p, pkgEval)
 		okClone, n := true, 0
 		core.Instrs(clone, func(ins ssa.Instruction) {
 			st, ok := ins.(*ssa.Store)
